@@ -690,6 +690,9 @@ def norm_left(lits):
     return sorted(x for x in lits if x[2] or not any(v == x[0] and k != x[1] for v, k in eqs))
 
 
+_SL_REPORTED = [0]
+
+
 def analyse_solverlife(rep, res, model):
     """the per-state solver life cycle of run_message (harness/c20_solverlife.py)"""
     from harness import c20_solverlife as S
@@ -709,26 +712,35 @@ def analyse_solverlife(rep, res, model):
     rep.count("solverlife_depths", len(fr) - 1)
     rep.count("solverlife_states", len(flat))
     bad = False
+    rows = []
     for d, i in flat:
         st = fr[d][i]
-        got = full["outs"][d][i]
-        alone = res["alone"][d][i]["outs"][0][0]
-        rev = res["reversed"][d][i]
-        spec = S.spec_outcomes(prog, st["slice"])
-        earlier = [fr[a][b]["slice"] for a, b in flat[:flat.index((d, i))]]
-        if got != alone or rev != alone:
-            rep.fail("failing-input", f"run_message: the test {prog} explored on the frontier state (depth {d}, #{i}, constraints {st['slice']}) gives the outcomes {got} after the states "
-                     f"{earlier} (and {rev} with the frontier in reversed order) but {alone} when the state is the only one: the exploration of a frontier state depends on the states explored before it",
+        rows.append((d, i, st, full["outs"][d][i], res["alone"][d][i]["outs"][0][0], res["reversed"][d][i], S.spec_outcomes(prog, st["slice"])))
+    # the first state whose outcomes in the frontier differ from the state alone; else in the reversed frontier; else from the spec
+    hit = next((x for x in rows if x[3] != x[4]), None) or next((x for x in rows if x[5] != x[4]), None)
+    if hit is not None:
+        d, i, st, got, alone, rev, _spec = hit
+        k = flat.index((d, i))
+        order = "as given" if got != alone else "in reversed order"
+        before = [fr[a][b]["slice"] for a, b in (flat[:k] if got != alone else reversed(flat[k + 1:]))]
+        bad = True
+        _SL_REPORTED[0] += 1
+        if _SL_REPORTED[0] <= 3:
+            rep.fail("failing-input", f"run_message: the test {prog} explored on the frontier state (depth {d}, #{i}, constraints {st['slice']}) gives the outcomes {got if got != alone else rev} "
+                     f"with the frontier {order}, i.e. after the states with constraints {before}, but {alone} when the state is the only one: the exploration of a frontier state depends on the "
+                     f"states explored before it (frontiers {[[x['slice'] for x in sts] for sts in fr]})",
                      case={"solverlife": case, "state": [d, i], "in_frontier": got, "reversed": rev, "alone": alone},
-                     sig={"defect": "frontier-state-run-depends-on-earlier-states", "lost": sorted(set(alone) - set(got)) != []})
+                     sig={"defect": "frontier-state-run-depends-on-earlier-states", "lost": bool(set(alone) - set(got if got != alone else rev))})
+        else:
+            rep.count("failures_not_repeated", "frontier-state-run-depends-on-earlier-states")
+    else:
+        hit = next((x for x in rows if sorted(x[3]) != x[6]), None)
+        if hit is not None:
+            d, i, st, got, _alone, _rev, spec = hit
             bad = True
-            break
-        if sorted(got) != spec:
             rep.fail("failing-input", f"run_message: the test {prog} on the frontier state (depth {d}, #{i}) with constraints {st['slice']} ends in the leaves {sorted(got)}; "
                      f"the valuations that satisfy the constraints reach {spec}", case={"solverlife": case, "state": [d, i], "got": got, "spec": spec},
                      sig={"defect": "frontier-state-outcomes-differ-from-spec"})
-            bad = True
-            break
     if model is None:
         return
     mo = model.batch([("c20_solverlife", S.enc_frontiers(prog, fr))] + [("c20_solver_leftover", S.enc_state(prog, fr[d][i])) for d, i in flat])
